@@ -40,6 +40,8 @@ impl Query for TestFunction {
 }
 
 fn custom<'a, T: Queryable>(name: &str, args: &Vec<FnArg>, state: State<'a, T>) -> State<'a, T> {
+    #[cfg(jsonpath_rust_verif)]
+    crate::verif::point(crate::verif::CUSTOM_PRE);
     let args = args
         .into_iter()
         .map(|v| v.process(state.clone()))
@@ -119,6 +121,8 @@ fn count<T: Queryable>(state: State<T>) -> State<T> {
 fn regex<'a, T: Queryable>(lhs: State<'a, T>, rhs: State<'a, T>, substr: bool) -> State<'a, T> {
     let to_state = |b| State::bool(b, lhs.root);
     let regex = |v: &str, r: Regex| {
+        #[cfg(jsonpath_rust_verif)]
+        crate::verif::point(crate::verif::REGEX_POST);
         if substr {
             r.find(v).is_some()
         } else {
@@ -140,6 +144,8 @@ fn regex<'a, T: Queryable>(lhs: State<'a, T>, rhs: State<'a, T>, substr: bool) -
 }
 
 fn prepare_regex(pattern: String, substring: bool) -> String {
+    #[cfg(jsonpath_rust_verif)]
+    crate::verif::point(crate::verif::REGEX_PRE);
     let pattern = if !substring {
         let pattern = if pattern.starts_with('^') {
             pattern
